@@ -117,14 +117,16 @@ UNITS += [
          functions=["blob::packer::RawPacker::save"],
          rewrites=[
              Rw("self.be.key().encrypt_data(&data)?.into()", "vencrypt_to_bytes(&self.be, &data)?", why="CryptoKey::encrypt_data + Vec->Bytes: uninterpreted ENC"),
-             Rw(r"self\.file_writer\s*\.as_ref\(\)\s*\.unwrap\(\)\s*\.send\(\(file, index\)\)\s*\.map_err\(.*?\)\?;", "vsend_pack(&self.file_writer, file, index, Ghost(self.basic.blob_type))?;", regex=True,
+             Rw(r"self\.file_writer\s*\.as_ref\(\)\s*\.unwrap\(\)\s*\.send\(\(file, index\)\)\s*\.map_err\(.*?\)\?;", "vsend_pack(&mut self.file_writer, file, index, Ghost(self.basic.blob_type))?;", regex=True,
                 why="Actor::send to the writer thread: effectful stub whose PRECONDITION is the sealed-pack property"),
          ],
          contract="""
     requires
-        old(self).basic.inv(),
+        old(self).basic.inv(), old(self).file_writer is Some,
     ensures
         /*@save_leaves_empty_packer*/ r is Ok ==> final(self).basic.inv() && final(self).basic.index.blobs@.len() == 0,
+        /*@save_hands_over_exactly_the_open_pack*/ r is Ok ==> sent_of(final(self).file_writer) == sent_of(old(self).file_writer).push(old(self).basic.index.blobs@),
+        /*@save_frame*/ final(self).file_writer is Some,
 """,
          hints=[("before", "vsend_pack(", """        proof {
             broadcast use axiom_enc_len;
@@ -210,6 +212,51 @@ UNITS += [
                 r.location.length == len && r.location.uncompressed_length == (if len_data == 0 { None::<u32> } else { Some(len_data) }),
         },
 """),
+]
+
+# ---- RawPacker::{add_raw, finalize, has}: no blob is lost between the open pack and the packs handed to the writer
+RP = dict(wrap_open="impl<BE: DecryptWriteBackend> RawPacker<BE> {", wrap_close="}")
+UNITS += [
+    Unit(name="take_stats", file=PK, anchor="pub fn take_stats(&mut self) -> PackerStats", within="impl BasicPacker {", ret_name="r", **W,
+         functions=["blob::packer::BasicPacker::take_stats"],
+         rewrites=[Rw("std::mem::take(&mut self.stats)", "vtake_stats(&mut self.stats)", why="std::mem::take on PackerStats")],
+         contract="""
+    ensures /*@take_stats_frame*/ final(self).index == old(self).index && final(self).file == old(self).file && final(self).size == old(self).size
+        && final(self).count == old(self).count && final(self).blob_type == old(self).blob_type,
+"""),
+    Unit(name="raw_add_raw", file=PK, anchor="fn add_raw(\n        &mut self,", within="impl<BE: DecryptWriteBackend> RawPacker<BE> {", ret_name="r", **RP,
+         functions=["blob::packer::RawPacker::add_raw"],
+         rewrites=[R_DISCARD],
+         contract="""
+    requires
+        old(self).basic.inv(), old(self).file_writer is Some,
+        old(self).basic.stats.blobs < u64::MAX, old(self).basic.stats.data + data_len <= u64::MAX,
+        old(self).basic.stats.data_packed + data.data@.len() <= u64::MAX, old(self).basic.count < u32::MAX,
+    ensures
+        // every blob accepted so far is either in the open pack or in a pack handed to the writer -- nothing is dropped
+        /*@blob_is_in_open_pack_or_handed_over*/ r is Ok ==> ({
+            let b0 = old(self).basic.index.blobs@;
+            let dup = exists|i: int| 0 <= i < b0.len() && (#[trigger] b0[i]).id == *id;
+            let nb = if dup { b0 } else { b0.push(IndexBlob { id: *id, tpe: old(self).basic.blob_type,
+                         location: BlobLocation { offset: old(self).basic.size, length: data.data@.len() as u32, uncompressed_length } }) };
+            ||| (final(self).basic.index.blobs@ == nb && sent_of(final(self).file_writer) == sent_of(old(self).file_writer))
+            ||| (final(self).basic.index.blobs@.len() == 0 && sent_of(final(self).file_writer) == sent_of(old(self).file_writer).push(nb))
+        }),
+        /*@raw_add_raw_inv*/ r is Ok ==> final(self).basic.inv() && final(self).file_writer is Some,
+"""),
+    Unit(name="raw_finalize", file=PK, anchor="fn finalize(&mut self) -> RusticResult<PackerStats>", within="impl<BE: DecryptWriteBackend> RawPacker<BE> {", ret_name="r", **RP,
+         functions=["blob::packer::RawPacker::finalize"],
+         rewrites=[R_DISCARD],
+         contract="""
+    requires
+        old(self).basic.inv(), old(self).file_writer is Some,
+    ensures
+        // nothing stays behind in the open pack when the packer is finalized
+        /*@finalize_flushes_open_pack*/ r is Ok ==> final(self).basic.index.blobs@.len() == 0,
+"""),
+    Unit(name="raw_has", file=PK, anchor="fn has(&self, id: &BlobId) -> bool", within="impl<BE: DecryptWriteBackend> RawPacker<BE> {", ret_name="r", **RP,
+         functions=["blob::packer::RawPacker::has"],
+         contract="\n    ensures /*@raw_has_is_open_pack_membership*/ r == (exists|i: int| 0 <= i < self.basic.index.blobs@.len() && (#[trigger] self.basic.index.blobs@[i]).id == *id),\n"),
 ]
 
 # ---- header / pack size folds of PackHeaderRef: unbounded (the iterator fold is rewritten to its definition, a loop)
